@@ -165,7 +165,7 @@ def main():
         expect("pool model: TLC finds the behaviour in which a Close without Wait leaves a queued task behind", False, "no violation")
     except ToolFailure as e:
         expect("pool model: TLC finds the behaviour in which a Close without Wait leaves a queued task behind",
-               "EarlyCloseLosesNothing is violated" in str(e), "")
+               "EarlyCloseLosesNothing is violated" in open(os.path.join(d, "tlc_early_neg.log")).read(), "")
 
     os.makedirs(os.path.join(ROOT, "selftest"), exist_ok=True)
     with open(os.path.join(ROOT, "selftest", "report.json"), "w") as f:
